@@ -89,6 +89,8 @@ func checkEngineInvariants(r *Run, prog *Program, pfx string) {
 		}
 	}
 	checkRuneErrorWidth(r, prog, pfx)
+	checkErrorRecording(r, prog, pfx)
+	checkRuleRefAndClasses(r, prog, pfx)
 	_ = token.EQL
 	r.Check(pfx+".engine", "read-invalid-encoding-iff-width-1", prog.pos(rd.Pos()), okR && sawErr, "(*parser).read must record errInvalidEncoding only when utf8.DecodeRune returned (RuneError, 1): a validly encoded U+FFFD or the end of input is not an encoding error")
 	_ = ssa.Function{}
